@@ -28,6 +28,8 @@ def materialise(spec):
         return np.array(v, dtype=float)
     if k == 'tuple':
         return tuple(v)
+    if k == 'tuple_mut':
+        return (copy.deepcopy(v[0]), v[1])          # a tuple is only shallowly immutable: its first member is a list
     raise ValueError(k)
 
 
@@ -45,7 +47,7 @@ def same(a, b):
 
 
 def is_mutable(v):
-    return isinstance(v, (list, dict, np.ndarray))
+    return isinstance(v, (list, dict, np.ndarray)) or (isinstance(v, tuple) and len(v) > 0 and isinstance(v[0], list))
 
 
 def mutate(obj, how):
@@ -66,6 +68,9 @@ def mutate(obj, how):
         if obj.size:
             obj += float(how['val']) + 0.5
         return True
+    if isinstance(obj, tuple) and len(obj) > 0 and isinstance(obj[0], list):
+        obj[0].append(how['val'])
+        return True
     return False
 
 
@@ -85,7 +90,7 @@ def gen_value(rng, mutable_ok=True, seq_ok=False):
         # a ValueTable value may itself be a sequence (stored whole under every key; never mutated by the simulated user)
         kinds += ['list', 'tuple']
     if mutable_ok:
-        kinds += ['list', 'list', 'dict', 'nd', 'nd', 'nested']
+        kinds += ['list', 'list', 'dict', 'nd', 'nd', 'nested', 'tuple_mut']
     k = rng.choice(kinds)
     if k == 'int':
         return {'k': 'int', 'v': rng.randrange(-5, 100)}
@@ -97,6 +102,8 @@ def gen_value(rng, mutable_ok=True, seq_ok=False):
         return {'k': 'list', 'v': [rng.randrange(10) for _ in range(rng.randrange(0, 5))]}
     if k == 'tuple':
         return {'k': 'tuple', 'v': [rng.randrange(10) for _ in range(rng.randrange(1, 5))]}
+    if k == 'tuple_mut':
+        return {'k': 'tuple_mut', 'v': [[rng.randrange(10), rng.randrange(10)], rng.choice(['lj', 'hs'])]}
     if k == 'nested':
         return {'k': 'list', 'v': [[rng.randrange(10)], rng.randrange(10)]}
     if k == 'dict':
